@@ -183,6 +183,21 @@ def malformed_fn(ctx, case):
             if got not in ('raise', 'false'):
                 ctx.violation({'op': 'CHECK_MULTISIG', 'kind': 'accepts' if got == 'true' else 'malformed result', 'why': 'malformed item'},
                               f'n={n} m={m} sigs={seq} allowed={allowed}: got {got} {st}')
+    # fewer than m items on the stack (nothing else below them): never true - directly and through the lock builder
+    lock = T.make_multisig_lock([refed.public_key(seeds[('L', i)]) for i in range(n)], m, '00')
+    for k in range(0, m):
+        for order in itertools.permutations(range(n), k):
+            cnt += 1
+            sigpush = b''.join(push(good[('L', i)]) for i in order)
+            r, st, _ = run(sigpush + keypush + op('CHECK_MULTISIG') + bytes([0, m, n]), cache)
+            a = auth([sigpush, lock.bytes], cache)
+            ctx.ran(2); ctx.trans(k + n + 1)
+            got = 'raise' if r is not None else ('true' if st == [TRUE] else 'false' if st == [FALSE] else 'other')
+            ctx.state(('short', n, m, order))
+            ctx.outcome('short->%s' % got)
+            if got == 'true' or a is not False:
+                ctx.violation({'op': 'CHECK_MULTISIG', 'kind': 'accepts', 'why': 'fewer than m signatures supplied'},
+                              f'n={n} m={m}: {k} signature(s) by {order}: instruction {got}, lock {a!r}')
     ctx.evaluations += max(cnt - 1, 0)
 
 
